@@ -53,6 +53,13 @@ def build_model(spec: dict):
     elif gs == 'cx_rz_rx':
         from bqskit.ir.gates import RXGate
         gate_set = {CNOTGate(), RZGate(), RXGate()}
+    elif gs == 'cx_u2':
+        # a lone single-qudit gate that is universal only when repeated
+        from bqskit.ir.gates import U2Gate
+        gate_set = {CNOTGate(), U2Gate()}
+    elif gs == 'cx_u1q':
+        from bqskit.ir.gates import U1qGate
+        gate_set = {CNOTGate(), U1qGate()}
     else:
         raise AssertionError(gs)
     return MachineModel(m, cg, gate_set, [d] * m)
@@ -68,7 +75,7 @@ def gen_model(rng: random.Random, n: int, d: int = 2,
         'gateset': rng.choice(['default', 'default', 'cz_rz_sx',
                                'cx_rz_ry', 'iswap_u3', 'cx_u1_rx',
                                'cx_u1_rx_sx', 'cx_rz_sx', 'cz_u3',
-                               'cx_rz_rx']) if d == 2
+                               'cx_rz_rx', 'cx_u2', 'cx_u1q']) if d == 2
         else 'default',
     }
 
